@@ -653,3 +653,106 @@ func ruleFastPathStoreOrder(w *World, r *RuleResult) {
 		r.ok("package | uint64 fast paths with two results", "", "no fast path writes two results back: nothing to decide", false)
 	}
 }
+
+func init() {
+	register(&Rule{ID: "C01.R8", Min: 1,
+		Text: "a result below the package's lower exponent limit underflows, it is not refused: in setExponent every System-underflow return is reached only with a value known to be normal in the context (a test adjusted exponent >= c.MinExponent) — anything lower is a subnormal of the context and is rounded at Etiny like one (Mul(1E-60000, 1E-60000) is a zero with Underflow, not an error)",
+		Run:  ruleLowerLimitUnderflows})
+}
+
+func ruleLowerLimitUnderflows(w *World, r *RuleResult) {
+	f := w.fn("(*Decimal).setExponent")
+	if f == nil {
+		r.anchorMissing("(*Decimal).setExponent")
+		return
+	}
+	sysU := w.conditionConsts()["SystemUnderflow"]
+	n := 0
+	for _, b := range f.Blocks {
+		rt, isRet := b.Instrs[len(b.Instrs)-1].(*ssa.Return)
+		if !isRet {
+			continue
+		}
+		hit := false
+		for _, v := range rt.Results {
+			if bits, isK := condBits(v); isK && typeIs(v.Type(), apdPath, "Condition") && bits&sysU != 0 && bits < 1<<12 {
+				hit = true
+			}
+		}
+		if !hit {
+			continue
+		}
+		n++
+		key := fmt.Sprintf("(*Decimal).setExponent | System-underflow return #%d only for a value that is normal in the context", n)
+		normal := false
+		for _, g := range guardsAt(b) {
+			bo, isB := g.Cond.(*ssa.BinOp)
+			if !isB {
+				continue
+			}
+			l, rr := w.exprOf(f, bo.X).String(), w.exprOf(f, bo.Y).String()
+			if strings.HasSuffix(rr, ".MinExponent)") || strings.HasSuffix(rr, ".MinExponent") {
+				if (bo.Op == token.GEQ && g.Val) || (bo.Op == token.LSS && !g.Val) {
+					normal = true
+				}
+			}
+			if strings.HasSuffix(l, ".MinExponent)") || strings.HasSuffix(l, ".MinExponent") {
+				if (bo.Op == token.LEQ && g.Val) || (bo.Op == token.GTR && !g.Val) {
+					normal = true
+				}
+			}
+		}
+		if normal {
+			r.ok(key, w.instrPos(rt), "reached only where the adjusted exponent is at least c.MinExponent", true)
+		} else {
+			r.bad(key, w.instrPos(rt), "the value is refused because it is below the package limit, without regard to the context: every such value is a subnormal of the context (c.MinExponent >= -100000) and must be rounded at Etiny with Underflow — Mul(1E-60000, 1E-60000), Quo(1E-60000, 3E+60000) and a zero product with such an exponent return 'exponent out of range' instead")
+		}
+	}
+	if n == 0 {
+		r.ok("(*Decimal).setExponent | System-underflow returns", w.pos(f.Pos()), "setExponent never refuses a value on the lower side", false)
+	}
+}
+
+func init() {
+	register(&Rule{ID: "C01.R9", Min: 5,
+		Text: "the exponent range is checked on the rounded result, not on the exact one: in the single-rounding operations no setExponent call on the destination is followed by the operation's rounding of that destination — the digits the rounding drops raise the exponent, so the exact value can be outside the package limits where the rounded one is inside (Mul(11111E-50000, 11111E-50002) at Precision 5 is 1.2345E-99994)",
+		Run:  ruleRangeAfterRounding})
+}
+
+func ruleRangeAfterRounding(w *World, r *RuleResult) {
+	reach := w.reachesFn(rounderRound)
+	for _, name := range singleRoundingOps {
+		f := w.fn(name)
+		if f == nil {
+			continue
+		}
+		key := name + " | no range check of the unrounded value before the rounding"
+		var bad []string
+		for _, s := range w.callsTo(f, "(*Decimal).setExponent") {
+			recv := basePtr(s.Common().Args[0])
+			for _, c := range callsIn(f) {
+				call, ok := c.(*ssa.Call)
+				if !ok || call == s {
+					continue
+				}
+				g := callee(call)
+				if g == nil || !reach[g] {
+					continue
+				}
+				gi := destArgIndex(w, g)
+				if gi >= len(call.Common().Args) || basePtr(call.Common().Args[gi]) != recv {
+					continue
+				}
+				after := call.Block() == s.Block() && instrIndex(call) > instrIndex(s) || call.Block() != s.Block() && reaches(s.Block(), call.Block())
+				if after {
+					bad = append(bad, fmt.Sprintf("setExponent at %s, then %s at %s", w.instrPos(s), w.calleeName(call), w.instrPos(call)))
+				}
+			}
+		}
+		if len(bad) > 0 {
+			r.bad(key, w.pos(f.Pos()), strings.Join(uniqStrings(bad), "; ")+": the exact result is refused when its exponent is outside the package limits although the rounding that follows would have brought it inside")
+		} else {
+			r.ok(key, w.pos(f.Pos()), "the destination's range is checked by (or after) its rounding only", true)
+		}
+	}
+}
